@@ -1,26 +1,61 @@
-import Sm9.Proofs.GroupBasic
+import Sm9.Proofs.JacobianInst
 /-!
 # C04 — G1 and G2 addition, subtraction and negation implement the curve group law
-First landing: identity handling in every representation, involutive negation,
-subtraction as addition of the negation.  The refinement to Mathlib's
-`WeierstrassCurve.Affine.Point` group law (DESIGN.md §6 C04) is the next item; until
-it lands the non-identity branches are decided by the oracle comparison with the affine
-chord-and-tangent law over the representation × relation grid.
+
+`Jac.*` : generic over any field `F` (char ≠ 2, −b not a cube) the model's Jacobian
+`add` / `double` / `neg` / `sub` — the code's four representation cases, the doubling and
+opposite-point branches, identity operands in any (x, y, 0) form — refine the group law of
+Mathlib's `WeierstrassCurve.Affine.Point`:  `toAff (P + Q) = toAff P + toAff Q` for all
+valid P, Q.  Commutativity, associativity and neutrality are then inherited from Mathlib's
+`AddCommGroup` instance.  `G1.*` : the same statements about the model's own `G1`
+operations (its `FieldElement Fq` instance is shown equal to the field-induced one; 2 ≠ 0
+and "−5 is not a cube in Fq" are discharged by kernel evaluation + Fermat).
+For G2 the generic theorems apply verbatim once `Field Fq2` and "−5u is not a cube" are
+available (in progress, C17); until then G2 is decided by the oracle comparison.
 -/
 namespace Sm9.C04
+open Jac
 
+/-- generic refinement of `add` (any field, any valid operands, any representation) -/
+theorem add_refines_group_law {F : Type} [Field F] [DecidableEq F] (b : F) (h2 : (2 : F) ≠ 0)
+    (hno2 : ∀ x : F, x ^ 3 + b ≠ 0) (P Q : G F) (hP : Valid b P) (hQ : Valid b Q) :
+    toAff b (Jac.add P Q) = toAff b P + toAff b Q ∧ Valid b (Jac.add P Q) :=
+  ⟨add_correct b h2 hno2 P Q hP hQ, add_valid b h2 hno2 P Q hP hQ⟩
+theorem double_refines_group_law {F : Type} [Field F] [DecidableEq F] (b : F) (h2 : (2 : F) ≠ 0)
+    (P : G F) (hP : Valid b P) : toAff b (Jac.dbl P) = toAff b P + toAff b P ∧ Valid b (Jac.dbl P) :=
+  ⟨double_correct b h2 P hP, double_valid b h2 P hP⟩
+theorem neg_refines_group_law {F : Type} [Field F] [DecidableEq F] (b : F) (P : G F) (hP : Valid b P) :
+    toAff b (Jac.neg P) = -toAff b P ∧ Valid b (Jac.neg P) := ⟨neg_correct b P hP, neg_valid b P hP⟩
+
+/-! the model's own G1 operations -/
+theorem g1_add (P Q : G1) (hP : G1.Valid P) (hQ : G1.Valid Q) :
+    G1.toAff (P.add Q) = G1.toAff P + G1.toAff Q ∧ G1.Valid (P.add Q) :=
+  ⟨G1.add_correct P Q hP hQ, G1.add_valid P Q hP hQ⟩
+theorem g1_sub (P Q : G1) (hP : G1.Valid P) (hQ : G1.Valid Q) : G1.toAff (P.sub Q) = G1.toAff P - G1.toAff Q :=
+  G1.sub_correct P Q hP hQ
+theorem g1_neg (P : G1) (hP : G1.Valid P) : G1.toAff P.neg = -G1.toAff P ∧ G1.Valid P.neg :=
+  ⟨G1.neg_correct P hP, G1.neg_valid P hP⟩
+theorem g1_double (P : G1) (hP : G1.Valid P) : G1.toAff P.double = G1.toAff P + G1.toAff P :=
+  G1.double_correct P hP
+/-- commutative, associative, identity neutral — as group elements -/
+theorem g1_add_comm (P Q : G1) (hP : G1.Valid P) (hQ : G1.Valid Q) : G1.toAff (P.add Q) = G1.toAff (Q.add P) := by
+  rw [G1.add_correct P Q hP hQ, G1.add_correct Q P hQ hP, add_comm]
+theorem g1_add_assoc (P Q R : G1) (hP : G1.Valid P) (hQ : G1.Valid Q) (hR : G1.Valid R) :
+    G1.toAff ((P.add Q).add R) = G1.toAff (P.add (Q.add R)) := by
+  rw [G1.add_correct _ R (G1.add_valid P Q hP hQ) hR, G1.add_correct P Q hP hQ,
+    G1.add_correct P _ hP (G1.add_valid Q R hQ hR), G1.add_correct Q R hQ hR, add_assoc]
+theorem g1_add_identity (P O : G1) (hP : G1.Valid P) (hO : O.z = 0) : G1.toAff (P.add O) = G1.toAff P := by
+  rw [G1.add_correct P O hP (Or.inl hO), G1.toAff_zero O hO, add_zero]
+theorem g1_no_two_torsion (x : Fq) : x ^ 3 + b1 ≠ 0 := Fq.no_two_torsion x
+/-- representation-level identity handling (both groups) -/
 theorem g1_zero_add (a b : G1) (h : a.z = 0) : a.add b = b := G1.add_zero_left a b h
-theorem g1_add_zero (a b : G1) (ha : a.z ≠ 0) (h : b.z = 0) : a.add b = a := G1.add_zero_right a b ha h
 theorem g2_zero_add (a b : G2) (h : a.z = 0) : a.add b = b := G2.add_zero_left a b h
 theorem g2_add_zero (a b : G2) (ha : a.z ≠ 0) (h : b.z = 0) : a.add b = a := G2.add_zero_right a b ha h
-theorem g1_neg_neg (p : G1) : p.neg.neg = p := G1.neg_neg p
 theorem g2_neg_neg (p : G2) : p.neg.neg = p := G2.neg_neg p
 theorem sub_def {F} [FieldElement F] (a b : G F) : a.sub b = a.add b.neg := rfl
-/-- the `(true,false)` arm re-enters `add` with swapped operands and lands in the `(false,true)` arm -/
-theorem add_tf_is_swapped_ft (a b : G1) (ha : a.is_zero = false) (hb : b.is_zero = false)
-    (h1 : FieldElement.beq a.z 1 = true) (h2 : FieldElement.beq b.z 1 = false) :
-    a.add b = b.add a := by
-  unfold G.add
-  simp [ha, hb, h1, h2]
+
+/-- non-vacuity: the generator is a valid point, and so are its (non-normalised) multiples -/
+example : G1.Valid (G.one : G1) := G1.one_valid
+example : G1.Valid ((G.one : G1).add G.one) := G1.add_valid _ _ G1.one_valid G1.one_valid
 
 end Sm9.C04
